@@ -68,7 +68,51 @@ class State:
         return {tuple(t[:nkeys]): t[nkeys:] for t in self.all(key)}
 
 
+def split_funds(op):
+    """`funds N DENOM AMT ... TRANSACTION` -> ([(denom, amount)], 'TRANSACTION'); (None, op) otherwise"""
+    t = op.split(' ')
+    if t[0] != 'funds':
+        return None, op
+    n = int(t[1])
+    coins = [(t[2 + 2 * i], int(t[3 + 2 * i])) for i in range(n)]
+    return coins, ' '.join(t[2 + 2 * n:])
+
+
+def tx_parties(op):
+    """(sender, target) of a transaction operation line (without a funds prefix)"""
+    t = op.split(' ')
+    if t[0] == 'bond':
+        return t[2], 'hub'
+    if t[0] == 'cw':
+        return t[2], t[1]
+    return t[1], t[0]
+
+
+def with_transfer(state, sender, target, denom, amt):
+    """the dump `state` after a bank transfer of amt denom from sender to target (nothing else changes):
+    attached coins reach the target's account before the contract executes, so for the monitors a
+    transaction with attached coins is exactly `transfer; the plain transaction`"""
+    bal = {}
+    rest = []
+    for ln in state.lines:
+        sp = ln.split(' ')
+        if sp[0] == 'bank' and len(sp) == 4 and sp[2] == denom and sp[1] in (sender, target):
+            bal[sp[1]] = int(sp[3])
+        else:
+            rest.append(ln)
+    if sender != target:
+        bal[sender] = bal.get(sender, 0) - amt
+        bal[target] = bal.get(target, 0) + amt
+    for a, x in bal.items():
+        if x != 0:
+            rest.append('bank %s %s %d' % (a, denom, x))
+    return State(rest)
+
+
 def op_kind(op):
+    coins, op = split_funds(op)
+    if coins is not None:
+        return op_kind(op) + ' +funds'
     t = op.split(' ')
     if t[0] in ('hub', 'reward', 'disp', 'reg') and len(t) > 2:
         return t[0] + ' ' + t[2]
@@ -88,6 +132,7 @@ def line_key(ln):
 
 def relevant(spec, opline, difline):
     if difline.startswith('op '):
+        opline = split_funds(opline)[1]
         for pat in spec.get('ops', ['.*']):
             if re.match(pat, opline):
                 return True
@@ -193,10 +238,42 @@ def compare_and_monitor(opsf, robs, mobs, pid, spec, M, known, probes=None, run_
             cur = State(rd)
             if probe_hists is not None:
                 hstate['_probes'] = probe_hists[hist_no].get(int(rh[1]), []) if 0 <= hist_no < len(probe_hists) else []
+            # a transaction with attached coins is shown to the monitors as the bank transfer(s) of the
+            # attached coins (an unsolicited transfer, `gift TARGET DENOM AMT`) followed by the plain
+            # transaction on the world after them; a failed transaction moved nothing
+            coins, plain = split_funds(op)
+            steps = []
+            if coins is not None and okflag and prev is not None:
+                sender_, target_ = tx_parties(plain)
+                st_ = prev
+                for dn_, am_ in coins:
+                    nx_ = with_transfer(st_, sender_, target_, dn_, am_)
+                    steps.append((st_, 'gift %s %s %d' % (target_, dn_, am_), True, [], nx_))
+                    st_ = nx_
+                steps.append((st_, plain, okflag, rt, cur))
+            elif coins is not None and prev is not None:
+                # failed: if the sender cannot pay the attached coins the bank explains the failure and the
+                # contracts were never called (nothing to judge); otherwise the plain transaction failed on
+                # the world after the transfer (and everything was rolled back)
+                sender_, target_ = tx_parties(plain)
+                need = {}
+                for dn_, am_ in coins:
+                    need[dn_] = need.get(dn_, 0) + am_
+                bank_ = {(t_[0], t_[1]): int(t_[2]) for t_ in prev.all('bank') if len(t_) == 3}
+                if plain.startswith('bond') or any(bank_.get((sender_, dn_), 0) < am_ for dn_, am_ in need.items()):
+                    steps = []
+                else:
+                    st_ = prev
+                    for dn_, am_ in coins:
+                        st_ = with_transfer(st_, sender_, target_, dn_, am_)
+                    steps.append((st_, plain, False, [], st_))
+            else:
+                steps.append((prev, plain, okflag, rt, cur))
             for mon in mons:
+              for (pv_, op_, ok_, tr_, cu_) in steps:
                 res['monitor_checks'] += 1
                 try:
-                    out = mon(hstate, prev, op, okflag, rt, cur, known)
+                    out = mon(hstate, pv_, op_, ok_, tr_, cu_, known)
                 except Exception as e:  # a monitor bug must not masquerade as a violation silently
                     out = ('error', 'monitor %s crashed: %r' % (getattr(mon, '__name__', '?'), e))
                 if out is None:
